@@ -613,8 +613,8 @@ def toml_dumps(cfg: Dict[str, Any]) -> str:
 
 
 EXTS = [".graphql", ".graphqls", ".gql"]
-DIRS = ["", "types", "types/inputs", "z_last", "a_first/nested", "Upper"]
-FNAMES = ["schema", "b", "a", "zz", "Types", "10", "2", "common", "_x"]
+DIRS = ["", "types", "types/inputs", "z_last", "a_first/nested", "Upper", ".hidden_dir", "with space"]
+FNAMES = ["schema", "b", "a", "zz", "Types", "10", "2", "common", "_x", ".dotfile", "two.parts"]
 
 
 def draw_partition(ch: Choices, n_defs: int, label="lay") -> Optional[List[Tuple[str, List[int]]]]:
